@@ -997,41 +997,48 @@ def oracle_queries(w, rng, heavy=False):
     f = rebuilt(w)
     probs = []
 
-    def cmp(name, a, b):
+    def run(fn, x):
+        try:
+            return ('ok', fn(x))
+        except Exception as e:
+            return ('raised', type(e).__name__)
+
+    def cmp(name, fn, post=lambda v: v):
+        a, b = run(fn, c), run(fn, f)
+        if a[0] == 'ok' and b[0] == 'ok':
+            a, b = ('ok', post(a[1])), ('ok', post(b[1]))
         if a != b:
             probs.append(f'{name}: circuit says {a!r}, a rebuilt equal circuit says {b!r}')
-    cmp('all_qubits', c.all_qubits(), f.all_qubits())
-    cmp('all_measurement_key_objs', c.all_measurement_key_objs(), f.all_measurement_key_objs())
-    cmp('is_parameterized', cirq.is_parameterized(c), cirq.is_parameterized(f))
-    cmp('parameter_names', cirq.parameter_names(c), cirq.parameter_names(f))
-    cmp('is_measurement', cirq.is_measurement(c), cirq.is_measurement(f))
-    cmp('control_keys', cirq.control_keys(c), cirq.control_keys(f))
-    cmp('are_all_measurements_terminal', c.are_all_measurements_terminal(), f.are_all_measurements_terminal())
-    cmp('len', len(c), len(f))
-    cmp('==', c == f, True)
-    cmp('freeze', c.freeze() == f.freeze(), True)
-    cmp('freeze.moments', tuple(c.freeze().moments), tuple(f.moments))
-    cmp('frozen all_qubits', c.freeze().all_qubits(), f.freeze().all_qubits())
-    cmp('frozen keys', c.freeze().all_measurement_key_objs(), f.freeze().all_measurement_key_objs())
+    cmp('all_qubits', lambda x: x.all_qubits())
+    cmp('all_measurement_key_objs', lambda x: x.all_measurement_key_objs())
+    cmp('is_parameterized', cirq.is_parameterized)
+    cmp('parameter_names', cirq.parameter_names)
+    cmp('is_measurement', cirq.is_measurement)
+    cmp('control_keys', cirq.control_keys)
+    cmp('are_all_measurements_terminal', lambda x: x.are_all_measurements_terminal())
+    cmp('len', len)
+    cmp('==', lambda x: x == f)
+    cmp('freeze', lambda x: x.freeze() == f.freeze())
+    cmp('freeze.moments', lambda x: tuple(x.freeze().moments))
+    cmp('frozen all_qubits', lambda x: x.freeze().all_qubits())
+    cmp('frozen keys', lambda x: x.freeze().all_measurement_key_objs())
     n = len(c)
     for _ in range(3):
         qs = [w.v.q(i) for i in rng.sample(range(NQ), rng.choice([1, 1, 2]))]
         s = rng.randint(0, n + 1)
         md = rng.choice([None, None, 0, 1, 3])
-        cmp('next_moment_operating_on', c.next_moment_operating_on(qs, s, md), f.next_moment_operating_on(qs, s, md))
+        cmp('next_moment_operating_on', lambda x: x.next_moment_operating_on(qs, s, md))
         e = rng.choice([None, rng.randint(0, n + 2)])
-        cmp('prev_moment_operating_on', c.prev_moment_operating_on(qs, e, md), f.prev_moment_operating_on(qs, e, md))
-        cmp('operation_at', c.operation_at(qs[0], s), f.operation_at(qs[0], s))
+        cmp('prev_moment_operating_on', lambda x: x.prev_moment_operating_on(qs, e, md))
+        cmp('operation_at', lambda x: x.operation_at(qs[0], s))
     start = {w.v.q(i): rng.randint(0, max(n, 1)) for i in rng.sample(range(NQ), rng.randint(1, NQ))}
-    cmp('reachable_frontier_from', c.reachable_frontier_from(start), f.reachable_frontier_from(start))
+    cmp('reachable_frontier_from', lambda x: x.reachable_frontier_from(start))
     end = {q: s + rng.randint(0, 3) for q, s in start.items() if rng.random() < 0.7}
-    cmp('findall_operations_between', c.findall_operations_between(start, end), f.findall_operations_between(start, end))
-    if heavy and len(c.all_qubits()) <= 4 and n <= 12 and cirq.has_unitary(f):
+    cmp('findall_operations_between', lambda x: x.findall_operations_between(start, end))
+    if heavy and len(f.all_qubits()) <= 4 and n <= 12 and cirq.has_unitary(f):
         import numpy as np
         order = sorted(f.all_qubits())
-        a, b = c.unitary(qubit_order=order), f.unitary(qubit_order=order)
-        if a.shape != b.shape or not np.allclose(a, b, atol=1e-9):
-            probs.append('unitary differs from that of a rebuilt equal circuit')
+        cmp('unitary', lambda x: x.unitary(qubit_order=order), post=lambda m: np.round(m, 8).tobytes())
     return probs
 
 
@@ -1184,6 +1191,8 @@ def history_stream(ctx, cirq, vocab, n, shard=120):
 
 def report_problem(ctx, cirq, vocab, w, calls, step, kind, what):
     """A spec-level oracle failed on the real code: minimise and report."""
+    if len(ctx.violations) >= 20:       # enough distinct failing inputs for one run
+        return
     doc = history_doc(w, calls[:step + 1])
     doc = shrink(cirq, vocab, doc, kind)
     probs = [p for p in replay_doc(cirq, vocab, doc) if p[1] == kind]
@@ -1243,7 +1252,7 @@ def shrink(cirq, vocab, doc, kind):
                 calls, changed = cand, True
         for i in range(len(calls)):
             for fld in LIST_FIELDS:
-                j = len(calls[i].get(fld) or []) - 1
+                j = (len(calls[i][fld]) if isinstance(calls[i].get(fld), list) else 0) - 1
                 while j >= 0:
                     xs = calls[i][fld]
                     c2 = dict(calls[i], **{fld: xs[:j] + xs[j + 1:]})
